@@ -362,6 +362,28 @@ def run(ctx):
         ctx.count("model_random_walks")
         if rc != 0 or not out.startswith("OK"):
             ctx.violation("C10 model self-test failed: %s" % out.strip()[:300], {"sim": out, "n": n}, no_failing_input=True)
+    # exhaustive exploration of small instances: deadlock freedom and fair termination of the stop phase
+    # (complements C10_stop_terminates_partial; the general measure proof is the _statement)
+    exps = ctx.scale([("", 2, 2), ("0", 2, 2), ("0,0", 1, 1), ("0,1", 1, 1), ("0,1", 2, 1)],
+                     [("", 3, 3), ("0", 3, 3), ("0,0", 2, 2), ("0,1", 2, 2), ("0,0,0", 1, 1), ("0,1,1", 1, 1), ("0,1,2", 1, 1)])
+
+    def explore(cfg):
+        return cfg, sh([drv, "--explore", cfg[0], str(cfg[1]), str(cfg[2])], timeout=ctx.scale(300, 3600))
+    with ThreadPoolExecutor(max_workers=4) as ex:
+        exres = list(ex.map(explore, exps))
+    tot = 0
+    for cfg, (rc, out, err) in exres:
+        ctx.count("exhaustive_instances")
+        if rc != 0 or not out.startswith("OK"):
+            ctx.violation("C10 exhaustive exploration (tree %s, jobs<=%d, searches<=%d): %s" % (cfg[0] or "-", cfg[1], cfg[2], (out or err).strip()[:300]),
+                          {"explore": cfg, "output": out}, no_failing_input=True)
+        else:
+            kv = dict(x.split("=") for x in out.split() if "=" in x and not x.startswith("tree"))
+            tot += int(kv.get("states", 0))
+            ctx.count("exhaustive_states", int(kv.get("states", 0)))
+            ctx.count("exhaustive_stop_phase_states", int(kv.get("stop_states", 0)))
+    ctx.notes["exhaustive_exploration"] = ("all interleavings of the LTS for the trees %s (parent lists; jobs / searches bounded): no deadlock and no "
+                                           "weakly-fair cycle inside the stop phase (SCC analysis), %d states" % ([c[0] or "-" for c in exps], tot))
     # corpus of past failures first
     corpus = os.path.join(VERIF, "corpus", "c10.json")
     if os.path.exists(corpus):
